@@ -1,7 +1,7 @@
 (* Non-vacuity examples for C16: concrete states meeting the theorems' hypotheses. *)
 From Coq Require Import ZArith QArith List Permutation String.
 From PAFCommon Require Import PyFloat PyNum Lists.
-From PAFC16 Require Import Gen Lib Model Proofs Proofs2.
+From PAFC16 Require Import Gen Lib Machine Model Proofs Proofs2 Proofs3.
 Import ListNotations.
 
 Example grid_2_3_has_9_cells : List.length (grid_lists_Q 2 3) = 9%nat.
@@ -59,4 +59,20 @@ Example results_paths_example : rb_results 3 [(2%Z, 7%Z); (0%Z, 9%Z)] = [Some (9
 Proof. vm_compute. reflexivity. Qed.
 
 Example progress_example : rb_progress 3 [] [(2%Z, tt); (0%Z, tt)] = [[false; false; true]; [true; false; true]].
+Proof. vm_compute. reflexivity. Qed.
+
+(* --- one object, several uses --- a coarse 1-D pass, a 2-D pass, then a refinement of the 1-D grid: the machine
+   of the code that exists answers 2, 4 and 4 cells; a cache keyed by the dimension count answers 2 for the
+   refinement (the witness of C16_cache_by_dimension_refuted), a cache keyed by (d, n) is sound *)
+Example history_sizes :
+  map out_size (gs_run_Q code_policy 2 [OCells [(0, 4)]; OCells [(0, 4); (1, 2)]; OSetSteps 4%Z; OCells [(0, 4)]]) = [2; 4; 4]%nat
+  /\ map out_size (gs_run_Q ByDim 2 [OCells [(0, 4)]; OCells [(0, 4); (1, 2)]; OSetSteps 4%Z; OCells [(0, 4)]]) = [2; 4; 2]%nat
+  /\ map out_size (gs_run_Q ByDimSteps 2 [OCells [(0, 4)]; OSetSteps 4%Z; OCells [(0, 4)]; OSetSteps 2%Z; OCells [(0, 4)]]) = [2; 4; 2]%nat.
+Proof. vm_compute. repeat split; reflexivity. Qed.
+
+Example history_hypotheses : sound code_policy /\ sound ByDimSteps /\ ~ sound ByDim /\ (1 <= 4)%Z.
+Proof. repeat split; [left; reflexivity | right; reflexivity | intros [H|H]; discriminate H | discriminate]. Qed.
+
+Example sens_history_sizes :
+  map out_size (sens_run_Q code_policy [2%Z] [OLists 1; OSetSteps [3%Z; 2%Z]; OCells 1; OSetSteps [4%Z]; OLists 1]) = [2; 6; 4]%nat.
 Proof. vm_compute. reflexivity. Qed.
